@@ -4,6 +4,7 @@ import (
 	"go/constant"
 	"go/token"
 	"go/types"
+	"strings"
 
 	"golang.org/x/tools/go/ssa"
 )
@@ -475,6 +476,46 @@ func c14Database(c *Ctx) {
 		}
 	})
 	c.Check(okKey, rule, shortFn(nc), nc.Pos(), "users are keyed by their configured Username", "the user map is not keyed by the configured Username")
+	// the configured credentials are kept as configured: the verifier's packages never assign to a
+	// user entry's Username or Password (a trimmed or case-folded copy proves a password that was
+	// not configured, and refuses the one that was)
+	nW := 0
+	for _, f := range c.allFirstPartyFuncs() {
+		if f.Pkg == nil || !(strings.HasSuffix(f.Pkg.Pkg.Path(), "/cmd/auth/database") || strings.HasSuffix(f.Pkg.Pkg.Path(), "/cmd/auth/ntlm")) {
+			continue
+		}
+		f := f
+		eachInstr(f, func(in ssa.Instruction) {
+			st, ok := in.(*ssa.Store)
+			if !ok {
+				return
+			}
+			fa, ok := st.Addr.(*ssa.FieldAddr)
+			if !ok {
+				return
+			}
+			_, fld, ok := fieldOfAddr(fa)
+			if !ok || fld.Pkg() == nil || !strings.HasSuffix(fld.Pkg().Path(), "/cmd/auth/config") || (fld.Name() != "Username" && fld.Name() != "Password") {
+				return
+			}
+			if _, isLoad := loadedFieldNamed(st.Val, fld.Name()); isLoad {
+				return // copying an entry field by field
+			}
+			nW++
+			c.Bad(rule, "credential rewritten in "+shortFn(f)+" ("+fld.Name()+")", st.Pos(), "the configured %s of a user entry is rewritten in %s before it is used: the verifier no longer proves exactly the configured credentials", fld.Name(), shortFn(f))
+		})
+	}
+	if nW == 0 {
+		c.OK(rule, "credentials as configured", nc.Pos(), "no function of the verifier's packages assigns to UserConfig.Username or UserConfig.Password")
+	}
+}
+
+// loadedFieldNamed: v is a load of a struct field with the given name.
+func loadedFieldNamed(v ssa.Value, name string) (*types.Var, bool) {
+	if _, f, ok := fieldLoad(strip(v)); ok && f.Name() == name {
+		return f, true
+	}
+	return nil, false
 }
 
 func isLookup(v ssa.Value) bool {
